@@ -115,9 +115,10 @@ package controller
 //@   props C10 C09
 //@   split fan
 //@   requires fans.fanWF(fan) && same(f.fan, fan) && configuration.CurrentConfig.RpmRollingWindowSize >= 1 && configuration.CurrentConfig.RpmRollingWindowSize <= 1000000000
-//@   requires fin(fans.rpmAvg(fan)) && abs(real(fans.rpmAvg(fan))) <= 1.0e15
-//@   ensures[C10.cutoff] lastRpmRead == 0 && fans.rpmAvg(fan) > 0.0 ==> old(fans.rpmAvg(fan)) > 1.0
-//@   ensures[C10.nonneg] configuration.CurrentConfig.RpmRollingWindowSize >= 2 && lastRpmRead >= 0 && (old(fans.rpmAvg(fan)) == 0.0 || old(fans.rpmAvg(fan)) >= 1.0e-270) && lastRpmRead <= 1000000000 ==> fans.rpmAvg(fan) >= 0.0
+//@   let avgOK = fin(fans.rpmAvg(fan)) && abs(real(fans.rpmAvg(fan))) <= 1.0e15
+//@   ensures[C10.cutoff] avgOK && lastRpmRead == 0 && fans.rpmAvg(fan) > 0.0 ==> old(fans.rpmAvg(fan)) > 1.0
+//@   ensures[C10.nonneg] avgOK && configuration.CurrentConfig.RpmRollingWindowSize >= 2 && lastRpmRead >= 0 && (old(fans.rpmAvg(fan)) == 0.0 || old(fans.rpmAvg(fan)) >= 1.0e-270) && lastRpmRead <= 1000000000 ==> fans.rpmAvg(fan) >= 0.0
+//@   ensures fans.fanWF(fan)
 //@   ensures[C10.floorframe C02] floorOf(f) == old(floorOf(f)) && f.lastSetPwm == old(f.lastSetPwm) && pwmWrites == old(pwmWrites)
 //@   modifies f.fan.(*fans.HwMonFan).RpmMovingAvg, f.fan.(*fans.HwMonFan).Pwm, f.fan.(*fans.HwMonFan).Rpm, f.fan.(*fans.HwMonFan).FanCurveData, (*f.fan.(*fans.HwMonFan).FanCurveData)[_]
 //@   modifies f.fan.(*fans.FileFan).Rpm, f.fan.(*fans.FileFan).Pwm, f.fan.(*fans.CmdFan).Rpm, f.fan.(*fans.CmdFan).Pwm, procWorld, started, lastReadFailed, supportsResult, lastRpmRead
@@ -139,11 +140,10 @@ package controller
 //@ func (*DefaultFanController).Run$1
 //@   props C09
 //@   requires *f != nil && fans.fanWF(*fan) && same((*f).fan, *fan) && *ctx != nil
-//@   requires configuration.CurrentConfig.RpmRollingWindowSize >= 1 && configuration.CurrentConfig.RpmRollingWindowSize <= 1000000000 && fin(fans.rpmAvg(*fan)) && abs(real(fans.rpmAvg(*fan))) <= 1.0e15
+//@   requires configuration.CurrentConfig.RpmRollingWindowSize >= 1 && configuration.CurrentConfig.RpmRollingWindowSize <= 1000000000
 //@   modifies anything
 //@   loop 1 ""
 //@     invariant *f != nil && fans.fanWF(*fan) && same((*f).fan, *fan) && *ctx != nil && tick != nil
-//@     invariant fin(fans.rpmAvg(*fan)) && abs(real(fans.rpmAvg(*fan))) <= 1.0e15
 
 //@ func (*DefaultFanController).Run$3
 //@   props C03 C09
